@@ -59,7 +59,9 @@ RULE = ('handler bodies over {nop, raise-and-catch, raise, reraise on/off, neste
         'object entered two or three times for different failures (after a re-raise, flag off, a body exception, '
         'force_reraise, capture); every flag pattern x exception classes including KeyboardInterrupt / SystemExit / '
         'GeneratorExit subclasses (with and without constructor arguments); real path kinds incl. dangling / looping '
-        'symlinks; plus random bodies '
+        'symlinks; every legal call form of the pinned signatures (save_and_reraise_exception(reraise=True, logger=None), '
+        'exception_filter(should_ignore_ex), remove_path_on_error(path, remove=...), raise_with_cause(exc_cls, message, ...): '
+        'positional / keyword / omitted / permuted) for the same logical arguments; plus random bodies '
         'over the whole grammar. A case is non-trivial when its body contains at least one helper operation and at '
         'least one exception was actually raised (some traceback is non-empty); distinct by (flag, kinds, path, body)')
 TRUSTED_BASE = [
